@@ -69,9 +69,16 @@ class TypeUnit:
         self.lay.offsets = dict(zip(self.lay.paths, vals[:-1]))
         self.size = vals[-1]
         # ---- IR
-        self.tu = work / f"h_{self.cn}.c"
+        self.tu = work / f"h_{self.cn}{self.SUFFIX}"
         self.tu.write_text(self.harness_text())
-        self.module = core.parse_module(build.c_to_ir(self.tu, self.incs, variant, self.defines))
+        self.module = core.parse_module(self._compile_ir())
+
+    SUFFIX = ".c"
+    CXX = False
+    std: typing.Optional[str] = None
+
+    def _compile_ir(self) -> str:
+        return build.c_to_ir(self.tu, self.incs, self.variant, self.defines)
 
     def harness_text(self) -> str:
         return (f"#include <{self.hdr}>\n"
@@ -164,6 +171,8 @@ def ser_setup(tu: TypeUnit, bufsize: int, eng: core.Engine):
     psz = st.new_obj(8, "size", _le(bufsize))
     val = D.c_read(tu.t, "", tu.lay, obj0)
     st.pc += D.bool_preconditions(val)
+    if getattr(tu, "VALID_OBJECTS_ONLY", False):
+        st.pc += D.validity_preconditions(val)       # mirror harnesses (C++): the target object cannot hold invalid counts/tags
     return st, obj0, buf0, pobj, pbuf, psz, val
 
 
@@ -382,11 +391,11 @@ int main(int argc, char** argv){
 
 
 def native_run(tu: TypeUnit, fn: str, n: int, obj_hex: str, buf_hex: str, sanitize: bool = False) -> typing.Tuple[int, dict, str]:
-    src = tu.work / f"rp_{tu.cn}.c"
+    src = tu.work / f"rp_{tu.cn}{tu.SUFFIX}"
     src.write_text(tu.harness_text() + REPLAY_MAIN.replace("@T@", tu.cn))
     exe = tu.work / (f"rp_{tu.cn}" + ("_san" if sanitize else ""))
     if not exe.exists():
-        build.native(src, exe, tu.incs, tu.defines, sanitize=sanitize)
+        build.native(src, exe, tu.incs, tu.defines, cxx=tu.CXX, sanitize=sanitize, std=tu.std)
     p = subprocess.run([str(exe), fn, str(n), obj_hex or "-", buf_hex or "-"], stdout=subprocess.PIPE, stderr=subprocess.PIPE, text=True, timeout=60)
     out: dict = {}
     if p.returncode == 0:
